@@ -165,7 +165,8 @@ def any (t : PT) (dim : Nat) (keepdim : Bool) : Option PT :=
             let ρ' := envOf ks jdx
             let full := t.paxes.map (fun k => if ks.any (·.1 == k.1) then ρ' k.1 else ρ k.1)
             truthy (t.physical[Ax.flat (t.paxes.map (·.2)) full]?.getD t.default))))
-    some { physical := physical, paxes := paxes, vaxes := vaxes, default := t.default }
+    -- an element backed by nothing is the disjunction of defaults: false if the dimension is empty
+    some { physical := physical, paxes := paxes, vaxes := vaxes, default := Bn.boolExt (truthy t.default && ed.numel > 0) }
 
 /-! ### protocol -/
 
